@@ -31,7 +31,56 @@ type Case struct {
 	// way: same node id; a relation listing one member twice). Updates name
 	// children by index, so the two references stay independent.
 	Ring bool `json:"ring,omitempty"`
+
+	// Boundary variants (all zero = the plain case; a replay written before they
+	// existed decodes to the plain case).
+	// Scale: which instants the abstract times stand for (timeScales in main.go):
+	// 0 whole hours in 2020, 1 single nanoseconds around 2012-09-12T09:30:03Z given
+	// in three zones, 2 the zero time / 1970-01-01 / a time after 2262.
+	Scale int `json:"scale,omitempty"`
+	// Pal: the payload palette of the updates (valuesAt): 0 plain, 1 boundary values.
+	Pal int `json:"pal,omitempty"`
+	// Far: the real index an update with Idx == N carries: 0 N (one past the
+	// end), 1 N+1, 2 2^32, 3 the largest int.
+	Far int `json:"far,omitempty"`
+	// BaseVar: the children before any update: 0 plain, 1 boundary values
+	// (a child at 0/0 that has a version, a child with the largest values).
+	BaseVar int `json:"basevar,omitempty"`
 }
+
+const maxInt = int(^uint(0) >> 1)
+
+// realIdx is the index the stored update really carries.
+func (c Case) realIdx(u U) int {
+	if u.Idx != c.N {
+		return u.Idx
+	}
+	switch c.Far {
+	case 1:
+		return c.N + 1
+	case 2:
+		return 1 << 32
+	case 3:
+		return maxInt
+	}
+	return c.N
+}
+
+// variantWeight: how many boundary variants are switched on.
+func (c Case) variantWeight() int {
+	w := 0
+	for _, v := range [...]int{c.Scale, c.Pal, c.Far, c.BaseVar} {
+		if v != 0 {
+			w++
+		}
+	}
+	return w
+}
+
+var (
+	scaleNames = [...]string{"hours", "nanoseconds-around-2012-09-12T09:30:03Z", "zero-time/1970/after-2262"}
+	farNames   = [...]string{"n", "n+1", "2^32", "maxint"}
+)
 
 func (c Case) String() string {
 	var sb strings.Builder
@@ -39,12 +88,28 @@ func (c Case) String() string {
 	if c.Ring {
 		ring = " ring"
 	}
+	if c.Scale != 0 && c.Scale < len(scaleNames) {
+		ring += " times=" + scaleNames[c.Scale]
+	}
+	if c.Pal != 0 {
+		ring += " boundary-payloads"
+	}
+	if c.Far != 0 && c.Far < len(farNames) {
+		ring += " idx" + fmt.Sprint(c.N) + "-means-" + farNames[c.Far]
+	}
+	if c.BaseVar != 0 {
+		ring += " boundary-children"
+	}
 	fmt.Fprintf(&sb, "%s n=%d base=%d%s updates=[", c.Kind, c.N, c.Base, ring)
 	for p, u := range c.Upd {
 		if p > 0 {
 			sb.WriteString(" ")
 		}
-		fmt.Fprintf(&sb, "idx%d@%dh", u.Idx, u.TS)
+		if c.Scale == 0 {
+			fmt.Fprintf(&sb, "idx%d@%dh", u.Idx, u.TS)
+		} else {
+			fmt.Fprintf(&sb, "idx%d@time%d", u.Idx, u.TS) // the ts-th timestamp of the scale, not hours
+		}
 		if u.Rev {
 			sb.WriteString("/rev")
 		}
@@ -77,6 +142,10 @@ func (c Case) hash() uint64 {
 	if c.Ring {
 		x |= 1
 	}
+	x = x<<2 | uint64(c.Scale)
+	x = x<<1 | uint64(c.Pal)
+	x = x<<2 | uint64(c.Far)
+	x = x<<1 | uint64(c.BaseVar) // 46 bits in all
 	// splitmix64 finaliser: a bijection on 64 bits
 	x += 0x9e3779b97f4a7c15
 	x = (x ^ (x >> 30)) * 0xbf58476d1ce4e5b9
@@ -93,7 +162,10 @@ type kid struct {
 }
 
 // valuesAt gives the payload of the update stored at list position p.
-func valuesAt(p int) kid {
+func valuesAt(c Case, p int) kid {
+	if c.Pal == 1 {
+		return boundaryValues[p]
+	}
 	k := kid{Ver: 2 + p, CS: int64(100 + p), Lat: 10.5 + float64(p), Lon: 20.25 + float64(p)}
 	switch p % 4 {
 	case 1:
@@ -102,6 +174,18 @@ func valuesAt(p int) kid {
 		k.Lat = 0 // on the equator
 	}
 	return k
+}
+
+// boundaryValues is palette 1: what an update may legitimately carry at the
+// edges. Position 3 repeats position 0 (two stored updates that are equal in
+// every field when they also share index and timestamp).
+var boundaryValues = [...]kid{
+	{Ver: 2, CS: 0, Lat: 45.5, Lon: 0},                                // no changeset (the attribute is optional); on the prime meridian
+	{Ver: maxInt, CS: 1<<63 - 1, Lat: 90, Lon: 180},                   // the largest values
+	{Ver: 1 << 31, CS: 1 << 40, Lat: -90, Lon: -180},                  // beyond 32 bits; the smallest coordinates
+	{Ver: 2, CS: 0, Lat: 45.5, Lon: 0},                                // = position 0
+	{Ver: 1, CS: 1, Lat: 1e-7, Lon: -1e-7},                            // the version the child already has; the 7th decimal
+	{Ver: 1<<31 - 1, CS: 1<<53 + 1, Lat: -12.3456789, Lon: 0.0000001}, // around the widths of int32 / float64
 }
 
 func memberKind(c Case, i int) int {
@@ -131,6 +215,14 @@ func baseKids(c Case) []kid {
 			continue // an unannotated way node: all zero
 		}
 		ks[i] = kid{Ver: 1, CS: int64(50 + i), Lat: float64(1 + i), Lon: -float64(1 + i)}
+		if c.BaseVar == 1 {
+			switch i {
+			case 0: // annotated (it has a version) and located at 0/0
+				ks[i] = kid{Ver: 1, CS: 50, Lat: 0, Lon: 0}
+			case 1: // the largest values, no changeset
+				ks[i] = kid{Ver: maxInt, CS: 0, Lat: 90, Lon: -180}
+			}
+		}
 		if c.Kind == "relation" {
 			switch memberKind(c, i) {
 			case 1:
@@ -188,7 +280,7 @@ func model(c Case, t int, e *expectedT) {
 		if last < 0 {
 			continue
 		}
-		v := valuesAt(last)
+		v := valuesAt(c, last)
 		o := e.Kids[i].Orient
 		if flips%2 == 1 {
 			o = flip(o)
@@ -198,10 +290,10 @@ func model(c Case, t int, e *expectedT) {
 	}
 	for p, u := range c.Upd {
 		if u.TS > t {
-			e.Pending = append(e.Pending, pend{Idx: u.Idx, TS: u.TS, Rev: u.Rev, Val: valuesAt(p)})
+			e.Pending = append(e.Pending, pend{Idx: c.realIdx(u), TS: u.TS, Rev: u.Rev, Val: valuesAt(c, p)})
 		} else if u.Idx >= c.N {
 			e.ErrExpected = true
-			e.ErrIdx = append(e.ErrIdx, u.Idx)
+			e.ErrIdx = append(e.ErrIdx, c.realIdx(u))
 		}
 	}
 }
